@@ -167,4 +167,30 @@ theorem merged_reduce_within_sample (c m r i : Nat) (hc : 0 < c) (hi : i < m) :
       _ ≤ ((r / c + 1) * c) * m := Nat.mul_le_mul_right m h2
       _ = (r / c + 1) * (c * m) := by rw [Nat.mul_assoc]
 
+
+/-! ## chunked sums -/
+
+theorem cadd_zero' (a : G) : cadd (0, 0) a = a := by
+  simp [cadd]
+
+theorem cadd_assoc' (a b c : G) : cadd (cadd a b) c = cadd a (cadd b c) := by
+  simp only [cadd]; exact Prod.ext (Int.add_assoc _ _ _) (Int.add_assoc _ _ _)
+
+theorem csum_append (a b : List G) : csum (a ++ b) = cadd (csum a) (csum b) := by
+  induction a with
+  | nil => simp [csum, cadd_zero']
+  | cons x a ih =>
+    simp only [List.cons_append, csum, List.foldr_cons] at *
+    rw [ih, cadd_assoc']
+
+/-- the first `m` chunks of `k` entries sum to the sum of the first `m·k` entries -/
+theorem chunkSum_eq_take (k m : Nat) (xs : List G) : chunkSum k m xs = csum (xs.take (m * k)) := by
+  unfold chunkSum
+  induction m with
+  | zero => simp [csum]
+  | succ m ih =>
+    rw [List.range_succ, List.foldl_append, ih]
+    simp only [List.foldl_cons, List.foldl_nil]
+    rw [← csum_append, Nat.succ_mul, List.take_add]
+
 end DirectVerif.C18
